@@ -1538,6 +1538,144 @@ fn vcli__to_inbound_recv(item: BytesMut, recipient: &Address, sender: SocketAddr
         ((item, recipient.clone()), sender)
     }
 
+//@@ octo-squirrel/src/config.rs:18-30  enum Mode  sha=957f62c1c01193ba
+#[derive(Clone, Copy, PartialEq)]
+pub enum cfg__Mode {
+    Tcp,
+    Udp,
+    TcpAndUdp,
+    Quic,
+    TcpAndQuic,
+}
+spec fn serde_names__Mode(v: cfg__Mode) -> Seq<Seq<char>> {
+    match v {
+        cfg__Mode::Tcp => seq!["tcp"@],
+        cfg__Mode::Udp => seq!["udp"@],
+        cfg__Mode::TcpAndUdp => seq!["tcp_and_udp"@],
+        cfg__Mode::Quic => seq!["quic"@],
+        cfg__Mode::TcpAndQuic => seq!["tcp_and_quic"@],
+    }
+}
+spec fn serde_other__Mode(v: cfg__Mode) -> bool {
+    match v {
+        cfg__Mode::Tcp => false,
+        cfg__Mode::Udp => false,
+        cfg__Mode::TcpAndUdp => false,
+        cfg__Mode::Quic => false,
+        cfg__Mode::TcpAndQuic => false,
+    }
+}
+
+//@@ octo-squirrel/src/config.rs:32-44  impl Mode  sha=211fcf0f0c602cbb
+impl cfg__Mode {
+    fn enable_tcp(&self) -> bool {
+        matches!(self, Self::Tcp | Self::TcpAndUdp | Self::TcpAndQuic)
+    }
+
+    fn enable_udp(&self) -> bool {
+        matches!(self, Self::Udp | Self::TcpAndUdp)
+    }
+
+    fn enable_quic(&self) -> bool {
+        matches!(self, Self::Quic | Self::TcpAndQuic)
+    }
+}
+
+//@@ octo-squirrel/src/protocol.rs:14-20  enum Protocol  sha=f4fd8332bf4085d1
+#[derive(PartialEq, Clone, Copy)]
+pub enum Protocol {
+    Shadowsocks,
+    VMess,
+    Trojan,
+}
+spec fn serde_names__Protocol(v: Protocol) -> Seq<Seq<char>> {
+    match v {
+        Protocol::Shadowsocks => seq!["shadowsocks"@],
+        Protocol::VMess => seq!["vmess"@],
+        Protocol::Trojan => seq!["trojan"@],
+    }
+}
+spec fn serde_other__Protocol(v: Protocol) -> bool {
+    match v {
+        Protocol::Shadowsocks => false,
+        Protocol::VMess => false,
+        Protocol::Trojan => false,
+    }
+}
+
+//@@ octo-squirrel/src/codec/aead.rs:124-142  enum CipherKind  sha=0afd87d0c4335287
+#[derive(Default, Clone, Copy, PartialEq, Eq)]
+pub enum cfgk__CipherKind {
+    Aes128Gcm,
+    Aes256Gcm,
+    ChaCha20Poly1305,
+    Aead2022Blake3Aes128Gcm,
+    Aead2022Blake3Aes256Gcm,
+    Aead2022Blake3ChaCha8Poly1305,
+    Aead2022Blake3ChaCha20Poly1305,
+    #[default]
+    Unknown,
+}
+spec fn serde_names__CipherKind(v: cfgk__CipherKind) -> Seq<Seq<char>> {
+    match v {
+        cfgk__CipherKind::Aes128Gcm => seq!["aes-128-gcm"@],
+        cfgk__CipherKind::Aes256Gcm => seq!["aes-256-gcm"@],
+        cfgk__CipherKind::ChaCha20Poly1305 => seq!["chacha20-poly1305"@, "chacha20-ietf-poly1305"@],
+        cfgk__CipherKind::Aead2022Blake3Aes128Gcm => seq!["2022-blake3-aes-128-gcm"@],
+        cfgk__CipherKind::Aead2022Blake3Aes256Gcm => seq!["2022-blake3-aes-256-gcm"@],
+        cfgk__CipherKind::Aead2022Blake3ChaCha8Poly1305 => seq!["2022-blake3-chacha8-poly1305"@],
+        cfgk__CipherKind::Aead2022Blake3ChaCha20Poly1305 => seq!["2022-blake3-chacha20-poly1305"@],
+        cfgk__CipherKind::Unknown => seq!["Unknown"@],
+    }
+}
+spec fn serde_other__CipherKind(v: cfgk__CipherKind) -> bool {
+    match v {
+        cfgk__CipherKind::Aes128Gcm => false,
+        cfgk__CipherKind::Aes256Gcm => false,
+        cfgk__CipherKind::ChaCha20Poly1305 => false,
+        cfgk__CipherKind::Aead2022Blake3Aes128Gcm => false,
+        cfgk__CipherKind::Aead2022Blake3Aes256Gcm => false,
+        cfgk__CipherKind::Aead2022Blake3ChaCha8Poly1305 => false,
+        cfgk__CipherKind::Aead2022Blake3ChaCha20Poly1305 => false,
+        cfgk__CipherKind::Unknown => false,
+    }
+}
+
+//@@ octo-squirrel/src/config.rs:64-84  struct ServerConfig  sha=4a1981ff06f0d60b
+pub struct ServerConfig<S: Clone + Default> {
+    pub host: String,
+    pub port: u16,
+    pub mode: cfg__Mode,
+    pub password: String,
+    pub protocol: Protocol,
+    pub cipher: CipherKind,
+    pub ssl: Option<S>,
+    pub ws: Option<WebSocketConfig>,
+    pub quic: Option<S>,
+    pub user: Vec<User>,
+    marker: PhantomData<S>,
+}
+
+//@@ octo-squirrel/src/config.rs:92-98  struct WebSocketConfig  sha=f6c7c5e2c14b9f62
+pub struct WebSocketConfig {
+    pub header: HashMap<String, String>,
+    pub path: String,
+}
+
+//@@ octo-squirrel/src/config.rs:100-104  struct User  sha=bb2d5e07d1c8ea18
+pub struct User {
+    pub name: String,
+    pub password: String,
+}
+
+//@@ octo-squirrel-server/src/server/config.rs:9-17  struct SslConfig  sha=e1273042d9ebfa96
+#[derive(Default, Clone)]
+pub struct SslConfig {
+    pub certificate_file: String,
+    pub key_file: String,
+    pub server_name: String,
+}
+
 //@@ octo-squirrel/src/protocol/vmess/header.rs:68-75  impl From for SecurityType#0  sha=6733604020742d4a
 impl From<CipherKind> for SecurityType {
     fn from(value: CipherKind) -> Self {
@@ -1569,3 +1707,22 @@ fn vtcp__new_codec(addr: &Address, verif_arg2: (CipherKind, String)) -> anyhow::
         let header = RequestHeader::default(RequestCommand::TCP, security, addr.clone(), &password)?;
         Ok(ClientAEADCodec::new(header))
     }
+
+//@@ octo-squirrel/src/protocol/vmess.rs:116-122  mod id / fn from_passwords  sha=a165dc0ac3488d15
+fn vid__from_passwords(uuid: Vec<&String>) -> Result<Vec<[u8; 16]>, uuid::Error> {
+        let mut res = Vec::with_capacity(uuid.len());
+        for uuid in uuid {
+            res.push(vid__from_password(uuid)?);
+        }
+        Ok(res)
+    }
+
+//@@ octo-squirrel-server/src/server/vmess.rs:229-237  impl TryFrom for ServerAeadCodec  sha=1a41f2b7fec5c188
+impl ServerAeadCodec {
+
+    fn try_from(config: &ServerConfig<SslConfig>) -> Result<Self, anyhow::Error> {
+        let uuid = config.user.iter().map(|u| &u.password).collect();
+        let keys = vid__from_passwords(uuid)?;
+        Ok(Self { keys, decode_state: vsrv__DecodeState::Init, encode_state: vsrv__EncodeState::Init, connected: false })
+    }
+}
